@@ -2135,10 +2135,25 @@ where
     where
         W: Write,
     {
+        let required_options = IntoTokensOptions::new(self.charset_changed);
+        if let Codec::Dataset(Some(adapter)) = ts.codec() {
+            // apply the data set adapter (e.g. deflate),
+            // like `write_dataset_with_ts_cs` does
+            let adapter = adapter.adapt_writer(Box::new(to));
+            let mut dset_writer = DataSetWriter::with_ts_cs_options(adapter, ts, cs, options)
+                .context(CreatePrinterSnafu)?;
+
+            // write object
+            dset_writer
+                .write_sequence(self.into_tokens_with_options(required_options))
+                .context(PrintDataSetSnafu)?;
+
+            return Ok(());
+        }
+
         // prepare data set writer
         let mut dset_writer =
             DataSetWriter::with_ts_cs_options(to, ts, cs, options).context(CreatePrinterSnafu)?;
-        let required_options = IntoTokensOptions::new(self.charset_changed);
 
         // write object
         dset_writer
